@@ -162,6 +162,7 @@ LATER = {
  'C20': 'patch rebased onto fix 8f32405 (same change: status checked, token sent, status stored - not atomic).',
  'C20f': 'patch rebased onto fix 8f32405 (same change: the deferred re-acquire moved out of the if).',
  'C20g': 'patch rebased onto fix 8f32405 (same change: the re-acquire send races with ctx.Done).',
+ 'C18h': 'patch rebased onto the follow-up repair of the same check (same change: convertible argument struct types are let through).',
 }
 rows = []
 for name in sorted(os.listdir(ROOT)):
